@@ -83,6 +83,8 @@ def reqKind? : String → Option Kind
   | "rnewchan" => some .new_channel
   | "rforget" => some .forget_channel
   | "rtipinfo" => some .get_heartbeat
+  | "rheartbeat" => some .get_heartbeat
+  | "hsignlocal" => some .channel_request
   | s => Kind.ofString? s
 
 def allowed (ks : List Kind) (h c : Cls) : Bool := ks.any (fun k => (edges k).contains (h, c))
